@@ -94,7 +94,7 @@ func HarnessC13MinNative() {
 	val, fv := verifNumOfKind(k)
 	m := verifBound()
 	excl := verifBool()
-	verifKF("C13-KF1", kfC13FractionalBoundIntKind(k, m))
+	verifKF("C13-KF2", kfC13FractionalBoundIntKind(k, m))
 	got := MinimumNativeType("p", "body", val, m, excl) != nil
 	want := verifOr(verifAnd(!excl, fv < m), verifAnd(excl, fv <= m))
 	verifObserve("kind", kindNames[k])
